@@ -1,5 +1,6 @@
 (* C11 -- pyramid.location.lineage, regenerated as [gen_lineage] (harness/c11/translate_lineage.py):
-   gen_lineage_is_model        the regenerated generator equals the hand-written reference, for every world and fuel;
+   gen_lineage_refines / _sound the regenerated generator answers wherever the hand-written reference does, and whatever it
+                               answers is the lineage (two one-sided ties: fuel may be spent differently);
    lineage_sound / _complete   with enough fuel its output is exactly THE lineage of the resource: the resource itself,
                                then its __parent__, ... up to the first resource whose __parent__ is None or missing --
                                for lineages of ANY length (no depth bound);
@@ -7,18 +8,7 @@
    chain_world_acls            in the world the harness builds from a case the lineage carries exactly the case's ACLs. *)
 From Coq Require Import List NArith ZArith Bool Lia.
 Import ListNotations.
-Require Import Verif.Lib.Wire Verif.Gen.Facts_C11 Verif.Model.C11 Verif.Proofs.C11 Verif.Proofs.C11_gen.
-
-Theorem gen_lineage_is_model W fuel r : gen_lineage W fuel r = lineage_from W fuel r.
-Proof.
-  unfold gen_lineage.
-  match goal with
-  | |- ?F fuel r = _ => enough (H : forall f x, F f x = lineage_from W f x) by apply H
-  end.
-  induction f as [|f IH]; intros x; [reflexivity|].
-  destruct x as [x|]; [|reflexivity].
-  simpl. unfold step_parent. destruct (parent_of W x); rewrite ?IH; reflexivity.
-Qed.
+Require Import Verif.Lib.Wire Verif.Gen.Facts_C11 Verif.Model.C11 Verif.Proofs.C11 Verif.Proofs.C11_gen Verif.Proofs.C11_char.
 
 (* the lineage of a resource, declaratively *)
 Inductive is_lineage (W : world) : nat -> list nat -> Prop :=
@@ -55,21 +45,118 @@ Proof.
   - assert (y = y') by congruence. subst. f_equal. apply IH. assumption.
 Qed.
 
+(* ---------- the tie between the REGENERATED generator and the reference: two one-sided statements instead of an
+   equality for every fuel, so that rewrites which spend the fuel differently (leaving the loop with `break` / `return`
+   one step earlier, an unrolled loop body) are absorbed.  Both scripts take the generated loop apart by pattern (never
+   by its text): one induction on the fuel, a case split on every [parent_of W x] the body reads (as many per iteration
+   as the body has), the induction hypothesis at every recursive call. *)
+Lemma lineage_from_mono W : forall f r l, lineage_from W f r = Some l -> lineage_from W (S f) r = Some l.
+Proof.
+  induction f as [|f IH]; intros r l H; [discriminate|].
+  destruct r as [x|]; [|exact H].
+  change (ocons x (lineage_from W f (step_parent W x)) = Some l) in H.
+  change (ocons x (lineage_from W (S f) (step_parent W x)) = Some l).
+  destruct (lineage_from W f (step_parent W x)) as [t|] eqn:E; [|discriminate].
+  rewrite (IH _ _ E). exact H.
+Qed.
+
+Lemma ocons_some x o t : o = Some t -> ocons x o = Some (x :: t).
+Proof. intros ->. reflexivity. Qed.
+
+Lemma lineage_from_none W f l : lineage_from W f None = Some l -> l = [].
+Proof. destruct f; simpl; [discriminate|]. intros H. inversion H. reflexivity. Qed.
+
+Lemma lineage_from_some W f x l : lineage_from W f (Some x) = Some l ->
+  exists g t, f = S g /\ l = x :: t /\ lineage_from W g (step_parent W x) = Some t.
+Proof.
+  destruct f as [|g]; [discriminate|].
+  change (ocons x (lineage_from W g (step_parent W x)) = Some l ->
+          exists g0 t, S g = S g0 /\ l = x :: t /\ lineage_from W g0 (step_parent W x) = Some t).
+  destruct (lineage_from W g (step_parent W x)) as [t|] eqn:E; [|discriminate].
+  intros H. inversion H. eauto.
+Qed.
+
+Ltac refine_step W IH :=
+  repeat match goal with
+  | H : lineage_from W ?g ?r = Some ?l |- _ ?g ?r = Some ?l => apply IH; exact H
+  | H : lineage_from W ?g ?r = Some ?l |- _ (S ?g) ?r = Some ?l => apply IH; apply lineage_from_mono; exact H
+  | |- ocons ?x _ = Some (?x :: _) => apply ocons_some
+  | H : lineage_from W ?f (Some ?x) = Some ?l |- context [parent_of W ?x] =>
+      let g := fresh "g" in let t := fresh "t" in let E := fresh "E" in let Hg := fresh "Hg" in let Hl := fresh "Hl" in
+      apply lineage_from_some in H; destruct H as (g & t & Hg & Hl & H);
+      try (injection Hg as Hg); subst;
+      unfold step_parent in H; destruct (parent_of W x) eqn:E
+  | H : lineage_from W _ None = Some _ |- _ => apply lineage_from_none in H; subst
+  | |- _ = Some [] => reflexivity
+  end.
+
+Ltac lineage_refines W :=
+  let G := fresh "G" in
+  match goal with |- forall f r l, _ -> ?F f r = _ => set (G := F) end;
+  let f := fresh "f" in let IH := fresh "IH" in let r := fresh "r" in let l := fresh "l" in let H := fresh "H" in
+  intro f; induction f as [|f IH]; intros r l H; [discriminate|];
+  destruct r as [?x|]; [|apply lineage_from_none in H; subst; reflexivity];
+  unfold G; cbn beta iota fix; fold G;
+  refine_step W IH.
+
+(* the regenerated generator answers wherever the reference does (same fuel), with the same list *)
+Theorem gen_lineage_refines W : forall fuel r l,
+  lineage_from W fuel r = Some l -> gen_lineage W fuel r = Some l.
+Proof. unfold gen_lineage. lineage_refines W. Qed.
+
+Definition lin_ok (W : world) (r : option nat) (l : list nat) : Prop :=
+  match r with Some x => is_lineage W x l | None => l = [] end.
+
+Ltac sound_step W IH :=
+  repeat match goal with
+  | H : context [match parent_of W ?x with PMissing => _ | PNone => _ | PTo _ => _ end] |- _ =>
+      let E := fresh "E" in destruct (parent_of W x) eqn:E
+  | H : Some _ = Some _ |- _ => injection H as H; subst
+  | H : ocons ?x ?o = Some ?l |- _ =>
+      let t := fresh "t" in let E := fresh "E" in
+      destruct o as [t|] eqn:E; [cbn [ocons] in H|discriminate H]
+  | H : _ ?g ?r = Some ?t |- _ => apply IH in H; unfold lin_ok in H
+  | H : None = Some _ |- _ => discriminate H
+  end;
+  subst;
+  repeat first [ assumption | reflexivity | apply lin_root; auto; fail | eapply lin_step; [eassumption|] ].
+
+Ltac lineage_sound_tac W :=
+  let G := fresh "G" in
+  match goal with |- forall f r l, ?F f r = _ -> _ => set (G := F) end;
+  let f := fresh "f" in let IH := fresh "IH" in let r := fresh "r" in let l := fresh "l" in let H := fresh "H" in
+  intro f; induction f as [|f IH]; intros r l H; [discriminate|];
+  destruct r as [?x|]; unfold lin_ok;
+  unfold G in H; cbn beta iota fix in H; fold G in H;
+  sound_step W IH.
+
+(* whatever the regenerated generator answers, with whatever fuel, is THE lineage (nothing for None) *)
+Theorem gen_lineage_sound W : forall fuel r l,
+  gen_lineage W fuel r = Some l -> lin_ok W r l.
+Proof. unfold gen_lineage. lineage_sound_tac W. Qed.
+
 (* the regenerated lineage() yields exactly the lineage, whatever its length *)
 Theorem gen_lineage_exact W r l fuel :
   length l < fuel -> (gen_lineage W fuel (Some r) = Some l <-> is_lineage W r l).
 Proof.
-  intros Hf. rewrite gen_lineage_is_model. split.
-  - apply lineage_sound.
-  - intros H. apply lineage_complete; assumption.
+  intros Hf. split.
+  - apply (gen_lineage_sound W fuel (Some r) l).
+  - intros H. apply gen_lineage_refines. apply lineage_complete; assumption.
 Qed.
 
-(* running out of fuel is the only way to get no answer, and it means the chain is at least that long *)
+(* "equal up to the fuel boundary": with more fuel than the answer is long, regenerated and reference agree *)
+Theorem gen_lineage_agrees_with_model W r l fuel :
+  length l < fuel -> (gen_lineage W fuel (Some r) = Some l <-> lineage_from W fuel (Some r) = Some l).
+Proof.
+  intros Hf. rewrite (gen_lineage_exact W r l fuel Hf). split.
+  - intros H. apply lineage_complete; assumption.
+  - apply lineage_sound.
+Qed.
+
 Theorem gen_lineage_first W fuel r l : gen_lineage W fuel (Some r) = Some l -> exists t, l = r :: t.
 Proof.
-  rewrite gen_lineage_is_model. destruct fuel as [|f]; [discriminate|]. simpl.
-  destruct (lineage_from W f (step_parent W r)) as [t|]; simpl; [|discriminate].
-  intros H. inversion H. eauto.
+  intros H. apply (gen_lineage_sound W fuel (Some r) l) in H. simpl in H.
+  inversion H; subst; eauto.
 Qed.
 
 (* ---------- lineage() + ACL scan *)
@@ -93,6 +180,25 @@ Proof.
   rewrite (proj2 (gen_lineage_exact W ctx l fuel Hf) Hl).
   eexists. eexists. split; [reflexivity|]. split; [reflexivity|].
   intros Hq. apply gen_allowed_consistent; assumption.
+Qed.
+
+(* END TO END: request.has_permission(p, ctx), with a security policy registered, is granted iff the first matching ACE
+   over the lineage of ctx -- scanning the ACLs of ctx, ctx.__parent__, ... in that order -- for the effective principals
+   the authentication policy reports is an Allow.  Everything on the left is regenerated from the source: lineage(),
+   has_permission, LegacySecurityPolicy.permits, ACLAuthorizationPolicy.permits, ACLHelper.permits, is_nonstr_iter,
+   AllPermissionsList.__contains__. *)
+Theorem has_permission_end_to_end R W ctx l fuel reqctx ps p :
+  has_policy R = true -> is_lineage W ctx l -> length l < fuel ->
+  exists acls, world_acls W fuel ctx = Some acls /\ acls = map (acl_of W) l
+    /\ (hp_granted (gen_has_permission R (Some acls) reqctx ps p) = true
+        <-> exists e, first_match acls ps p = Some e /\ act e = Allow).
+Proof.
+  intros HR Hl Hf. exists (map (acl_of W) l). split; [|split; [reflexivity|]].
+  - unfold world_acls. rewrite (proj2 (gen_lineage_exact W ctx l fuel Hf) Hl). reflexivity.
+  - pose proof (has_permission_first_match R (Some (map (acl_of W) l)) reqctx ps p HR) as E.
+    cbv beta iota in E. split; intros H.
+    + apply spec_granted_iff_first_allow. exact (eq_trans (eq_sym E) H).
+    + exact (eq_trans E (proj2 (spec_granted_iff_first_allow _ _ _) H)).
 Qed.
 
 (* ---------- the world of a case *)
